@@ -66,7 +66,16 @@ fn main() {
                 usage();
             }
             let tier = if args[3] == "thorough" { "thorough" } else { "quick" };
-            std::process::exit(checks::run(&args[2], tier));
+            // a panic of the harness itself is a machinery failure (exit 2), never a verdict
+            let id = args[2].clone();
+            match std::panic::catch_unwind(move || checks::run(&id, tier)) {
+                Ok(code) => std::process::exit(code),
+                Err(e) => {
+                    let msg = if let Some(s) = e.downcast_ref::<&str>() { s.to_string() } else if let Some(s) = e.downcast_ref::<String>() { s.clone() } else { "panic".to_string() };
+                    eprintln!("MACHINERY-ERROR: the harness panicked: {}", msg);
+                    std::process::exit(2);
+                }
+            }
         }
         "replay" => {
             if args.len() < 3 {
